@@ -48,6 +48,35 @@ func (p propC05) Gen(r *simrt.Rand, idx int, tier string) any {
 		c.Prop, c.Reopen = "C05", true
 		return C05Case{Conc: &c}
 	}
+	if idx%16 == 9 {
+		// bulk: a few hundred persisted records (several versions of some keys) across reopenings
+		c := SeqCase{Prop: "C05", ReadBack: "none"}
+		c.Sched = SchedSpec{Seed: r.Uint64(), Strategy: "seqbg", MaxSteps: 3_000_000}
+		c.World = genWorldSpec(r)
+		nk := 110 + r.Intn(200)
+		for i := 0; i < nk; i++ {
+			c.Keys = append(c.Keys, fmt.Sprintf("bulk-%03d", i))
+		}
+		id := uint64(0)
+		for round := 0; round < 2+r.Intn(2); round++ {
+			for i := 0; i < nk; i++ {
+				if round == 0 || r.Intn(4) == 0 {
+					id++
+					c.Ops = append(c.Ops, Op{K: "set", Key: c.Keys[i], ID: id, Size: 1 + r.Intn(24)})
+				} else if r.Intn(20) == 0 {
+					c.Ops = append(c.Ops, Op{K: "del", Key: c.Keys[i]})
+				}
+			}
+			if r.Intn(2) == 0 {
+				c.Ops = append(c.Ops, Op{K: "drain"})
+			}
+			c.Ops = append(c.Ops, Op{K: "reopen"}, Op{K: "keys"})
+			for _, ki := range r.Perm(nk)[:40] {
+				c.Ops = append(c.Ops, Op{K: "get", Key: c.Keys[ki]})
+			}
+		}
+		return C05Case{Single: &c}
+	}
 	if idx%2 == 0 {
 		c := genSeqCase(r, seqProfile{prop: "C05", steps: [2]int{15, 50}, keys: [2]int{2, 4}, maxTx: 4, txWeight: 50, ctlWeight: 8, reopen: 10, readback: "all"})
 		if idx%8 == 2 {
